@@ -1,5 +1,6 @@
 (* Props/C02F.v -- C02 on the converter fragment: the quantifier over SCHEMAS is
-   a theorem.  Statements only (proofs: Proofs/ConvertProofs.v; model:
+   a theorem.  Statements only (proofs: Proofs/ConvertProofs.v, ConvertShapeProofs.v,
+   ConvertCoversProofs.v; model:
    Algo/Convert.v; report: notes/Convert.md).
 
    For every document D of the fragment ([in_frag cls D = true]: scalars,
@@ -16,7 +17,7 @@
 From Coq Require Import String ZArith NArith QArith List Bool.
 From Typify Require Import Base.Json Spec.Schema Spec.Valid IR.TypeIR IR.Serde Check.Covers.
 From Typify Require Algo.Heck Algo.Sanitize.
-From Typify Require Import Algo.Convert Proofs.ConvertProofs.
+From Typify Require Import Algo.Convert Proofs.ConvertProofs Proofs.ConvertCoversProofs.
 Import ListNotations.
 Close Scope Q_scope.
 Close Scope string_scope.
